@@ -12,9 +12,14 @@ changes the container.
   between environments).
 * mode A  ``data_ok``: compiled templates calling a (selector-chosen) list /
   deque / dict method on containers of *symbolic* ints with symbolic arguments.
-* mode B  ``meth_ok``: compiled templates reaching every public method
-  (selector) with every applicable argument tuple (selector) through 13 access
-  routes (selector); sync and async.
+* mode B  ``meth_ok``: compiled templates reaching every public method and
+  every mutating underscore method (``__setitem__``, ``__iadd__``, ``__init__``
+  ...) (selector) with every applicable argument tuple (selector) through 13
+  access routes (selector); sync and async; each selector tuple is evaluated
+  from a fresh shared state and again after a plain ``SandboxedEnvironment``
+  rendered the same template (state shared between environments -- module
+  globals / class attributes of jinja2.sandbox -- is put back to its import
+  time contents before each evaluation, so every verdict replays natively).
 * mode B  ``filt_ok``: every filter registered in the environment (read from
   ``env.filters`` at run time) x generated argument shapes incl. one
   container-valued keyword argument per declared parameter x container data,
@@ -41,9 +46,12 @@ FUNCTIONS = [
     "generated sandboxed code for Getattr/Getitem/Call/Filter (compiler)", "jinja2.runtime.Undefined (SecurityError undefined)",
 ]
 OUTSIDE = ["subclasses of the four container types and other mutable types", "argument tuples outside the 10-entry table",
+           "underscore names that do not mutate (they are the subject of C17)",
            "bound methods placed in the context by the application itself (the sandbox only guards attribute access)",
            "filter argument shapes outside the generated ones (no args, int, string, container, one keyword per declared parameter)"]
 ASSUMPTIONS = ["templates are compiled natively at setup; only rendering runs under the solver",
+               "state shared between environments lives in mutable containers / functools caches held by the jinja2.sandbox module "
+               "or by class attributes of the sandbox environment / formatter classes (these are reset between evaluations)",
                "the mutator table is derived from CPython's own behaviour on sample containers"]
 
 # Genuine defects of the unchanged tree found by these conditions (attr_ok / meth_ok counterexamples,
@@ -81,7 +89,9 @@ ARGS = [
 
 
 def _public(tname):
-    return sorted(n for n in dir(TYPES[tname]) if not n.startswith("_"))
+    """Every public name of the type, plus every underscore name in dir() that the oracle marks as a mutator
+    (__setitem__, __delitem__, __iadd__, __ior__, __init__, ...): those are mutating methods too."""
+    return sorted(n for n in dir(TYPES[tname]) if not n.startswith("_") or _mutates(tname, n))
 
 
 def _mutates(tname, name):
@@ -166,6 +176,51 @@ def _env(cls, asyncm, autoescape=False):
     return ENVS[key]
 
 
+_SHARED = []
+
+
+def _snapshot_shared():
+    """State shared between environments: every mutable container held by the jinja2.sandbox module or as a class
+    attribute of a class on the MRO of the two sandbox environments, plus functools caches.  Recorded once (import
+    time contents) so that _reset_shared() can put the process back into the state of a fresh interpreter: every
+    evaluated selector tuple then has a defined history (fresh / plain sandbox first) that the native replay reproduces."""
+    import jinja2.sandbox as sb
+
+    seen = set()
+    holders = [vars(sb)]
+    for cls in (ImmutableSandboxedEnvironment, SandboxedEnvironment, sb.SandboxedFormatter, sb.SandboxedEscapeFormatter):
+        for k in cls.__mro__:
+            if k.__module__.startswith("jinja2"):
+                holders.append(vars(k))
+    for h in holders:
+        for name, v in list(h.items()):
+            if id(v) in seen or (name.startswith("__") and name.endswith("__")):
+                continue
+            seen.add(id(v))
+            if type(v) in (dict, set, list, deque):
+                _SHARED.append((v, copy.copy(v)))
+            elif callable(getattr(v, "cache_clear", None)):
+                _SHARED.append((v, None))
+
+
+def _reset_shared():
+    for obj, snap in _SHARED:
+        if snap is None:
+            obj.cache_clear()
+        elif type(obj) is dict:
+            obj.clear()
+            obj.update(snap)
+        elif type(obj) is set:
+            obj.clear()
+            obj.update(snap)
+        else:
+            obj.clear()
+            obj.extend(snap)
+
+
+_snapshot_shared()
+
+
 def _render(t, asyncm, ctx):
     if asyncm:
         return drive(t.render_async(**ctx))
@@ -201,6 +256,8 @@ def attr_ok(attr: str, prime: bool) -> bool:
     for mk in SAMPLES[TNAME]:
         obj = mk()
         value = getattr(obj, name)
+        with NoTracing():
+            _reset_shared()
         if prime:
             # a plain sandbox answers the same (type, attr) question first; its verdict must not leak
             _env(SandboxedEnvironment, False).is_safe_attribute(obj, attr, value)
@@ -246,13 +303,15 @@ def _meth_one(mi, ai, ri, si):
 
 
 def _meth_native(mi, ai, ri):
-    """Both sample containers; each: immutable render, then a plain SandboxedEnvironment renders the same
-    template (same (type, attr) pairs) on a copy, then the immutable render again -- a verdict of the plain
-    sandbox must not leak into the immutable one."""
+    """Both sample containers; each: immutable render from a fresh shared state, then (fresh state again) a plain
+    SandboxedEnvironment renders the same template (same (type, attr) pairs) on a copy followed by the immutable
+    render -- a verdict of the plain sandbox must not leak into the immutable one."""
     asyncm = P.get("asyncm")
     for si in range(2):
+        _reset_shared()
         if not _meth_one(mi, ai, ri, si):
             return False
+        _reset_shared()
         pctx = _ctx(TNAME, si, ai)
         pctx["mname"] = PUBLIC[TNAME][mi]
         try:
@@ -402,6 +461,7 @@ def _fdata():
 def _filt_native(ei, di):
     asyncm = P.get("asyncm")
     ok = True
+    _reset_shared()
     for ae in (False, True):
         t = FT[ei][ae]
         ctx = _fdata()
